@@ -49,6 +49,10 @@ use lightning_signer::verif_sync::{set_lock_hook, LockEvent, LockEventKind};
 use serde_json::{json, Value};
 use vharness::*;
 use vls_persist::kvv::KVVStore;
+use vls_protocol::model::{self, BitcoinSignature, PubKey};
+use vls_protocol::msgs::{self, Message, SerBolt};
+use vls_protocol::serde_bolt::Array;
+use vls_protocol_signer::handler::{ChannelHandler, Handler};
 
 // ------------------------------------------------------------------ lock classes
 
@@ -654,6 +658,21 @@ const KINDS: &[&str] = &[
     "remove_block_closing",
     "remove_block_empty",
     "persist_all",
+    // the same through the protocol handler (ChannelHandler / RootHandler::do_handle), old and new protocol
+    "h4_validate_commitment_x",
+    "h4_validate_commitment_y",
+    "h4_get_point",
+    "h4_sign_remote_commitment",
+    "h4_revoke_commitment",
+    "h4_forget_channel",
+    "h6_validate_commitment_x",
+    "h6_validate_commitment_y",
+    "h6_get_point",
+    "h6_sign_remote_commitment",
+    "h6_revoke_commitment",
+    "h6_forget_channel",
+    "h6_new_channel",
+    "h6_setup_channel",
 ];
 
 fn payment(i: u8) -> (PaymentPreimage, PaymentHash) {
@@ -662,8 +681,99 @@ fn payment(i: u8) -> (PaymentPreimage, PaymentHash) {
     (pre, hash)
 }
 
+/// the reply of a handler request: Ok with the encoded reply, or refused
+fn handled<H: Handler>(h: &H, m: Message) -> bool {
+    match h.handle(m) {
+        Ok(reply) => {
+            set_reply(hex::encode(reply.as_vec()));
+            true
+        }
+        Err(_) => false,
+    }
+}
+
+fn validate2_msg(sys: &Sys, n: u64, to_h: u64, to_c: u64) -> Message {
+    let mut c = channel_commitment(&sys.nctx, &sys.a.ctx, n, 1100, to_h, to_c, vec![], vec![]);
+    let (sig, _hs) = counterparty_sign_holder_commitment(&sys.nctx, &sys.a.ctx, &mut c);
+    let m = msgs::ValidateCommitmentTx2 {
+        commitment_number: n,
+        feerate: 1100,
+        to_local_value_sat: to_h,
+        to_remote_value_sat: to_c,
+        htlcs: Array(vec![]),
+        signature: BitcoinSignature { signature: model::Signature(sig.serialize_compact()), sighash: 1 },
+        htlc_signatures: Array(vec![]),
+    };
+    msgs::from_vec(m.as_vec()).expect("request survives the wire")
+}
+
+/// a request sent to the protocol handler of channel A (or to the root handler) at protocol 4 or 6
+fn make_handler_req(sys: &mut Sys, kind: &str) -> Req {
+    let proto: u32 = if kind.starts_with("h4_") { 4 } else { 6 };
+    let what = &kind[3..];
+    let node = sys.node.clone();
+    let peer = sys.peer;
+    let root = make_root_handler(&node, proto);
+    let chan: ChannelHandler = root.for_new_client(1, PubKey(peer), sys.a.dbid);
+    match what {
+        "validate_commitment_x" | "validate_commitment_y" => {
+            let to_h = if what.ends_with("x") { 1_000_000 } else { 1_010_000 };
+            let msg = validate2_msg(sys, 1, to_h, VALUE - 20_000 - to_h);
+            Box::new(move || handled(&chan, msg))
+        }
+        "get_point" => Box::new(move || {
+            if proto >= 6 {
+                handled(&chan, Message::GetPerCommitmentPoint2(msgs::GetPerCommitmentPoint2 { commitment_number: 1 }))
+            } else {
+                handled(&chan, Message::GetPerCommitmentPoint(msgs::GetPerCommitmentPoint { commitment_number: 1 }))
+            }
+        }),
+        "sign_remote_commitment" => {
+            let m = msgs::SignRemoteCommitmentTx2 {
+                remote_per_commitment_point: PubKey(cp_point(0).serialize()),
+                commitment_number: 0,
+                feerate: 1100,
+                to_local_value_sat: VALUE - 1000 - 100,
+                to_remote_value_sat: 0,
+                htlcs: Array(vec![]),
+            };
+            let msg = msgs::from_vec(m.as_vec()).expect("request survives the wire");
+            Box::new(move || handled(&chan, msg))
+        }
+        "revoke_commitment" => {
+            // commitment 1 validated (not yet revoked where the protocol has a separate revoke)
+            let to_h = 1_000_000;
+            let (mut c1, a_id) = (
+                channel_commitment(&sys.nctx, &sys.a.ctx, 1, 1100, to_h, VALUE - 20_000 - to_h, vec![], vec![]),
+                sys.a.ctx.channel_id.clone(),
+            );
+            let (sig, hs) = counterparty_sign_holder_commitment(&sys.nctx, &sys.a.ctx, &mut c1);
+            node.with_channel(&a_id, |c| c.validate_holder_commitment_tx_phase2(1, 1100, to_h, VALUE - 20_000 - to_h, vec![], vec![], &sig, &hs))
+                .expect("validate 1");
+            Box::new(move || handled(&chan, Message::RevokeCommitmentTx(msgs::RevokeCommitmentTx { commitment_number: 0 })))
+        }
+        "forget_channel" => {
+            let dbid = sys.a.dbid;
+            Box::new(move || handled(&root, Message::ForgetChannel(msgs::ForgetChannel { node_id: PubKey(peer), dbid })))
+        }
+        "new_channel" => Box::new(move || handled(&root, Message::NewChannel(msgs::NewChannel { peer_id: PubKey(peer), dbid: 11 }))),
+        "setup_channel" => {
+            let stub_chan: ChannelHandler = root.for_new_client(2, PubKey(peer), sys.stub_dbid);
+            let mut setup = chan_setup();
+            setup.funding_outpoint = OutPoint { txid: lightning_signer::bitcoin::Txid::from_slice(&[7u8; 32]).unwrap(), vout: 1 };
+            let m = setup_channel_msg(&setup);
+            let msg = msgs::from_vec(m.as_vec()).expect("request survives the wire");
+            Box::new(move || handled(&stub_chan, msg))
+        }
+        other => panic!("unknown handler request {}", other),
+    }
+}
+
 /// prepare the arguments of a request on this system (not recorded), return the request itself
 fn make_req(sys: &mut Sys, kind: &str) -> Req {
+    if kind.starts_with("h4_") || kind.starts_with("h6_") {
+        return make_handler_req(sys, kind);
+    }
     let node = sys.node.clone();
     let peer = sys.peer;
     let a_id = sys.a.ctx.channel_id.clone();
@@ -1388,6 +1498,7 @@ fn sweep(rec: &Arc<Rec>, args: &Args) {
         points_main.push(main);
     }
     let index_of = |name: &str| acqs.iter().position(|a| a.0 == name);
+    let is_handler = |n: &str| n.starts_with("h4_") || n.starts_with("h6_");
     // tier 1: the channel life cycle (same channel ids: the stub, channel A) + requests named by the caller
     let mut family: Vec<usize> = ["new_channel", "new_channel_existing", "setup_channel", "setup_channel_again",
         "forget_channel_stub", "forget_channel_ready", "heartbeat_prune_stub", "heartbeat_prune_closed",
@@ -1430,6 +1541,22 @@ fn sweep(rec: &Arc<Rec>, args: &Args) {
             }
         }
     }
+    // handler messages on one channel, old protocol among themselves and new protocol among themselves
+    // (different contents for the same commitment number included): every pause point, both orders
+    for proto in ["h4_", "h6_"] {
+        let fam: Vec<usize> = (0..acqs.len()).filter(|i| acqs[*i].0.starts_with(proto)).collect();
+        for &pi in fam.iter() {
+            for &qi in fam.iter() {
+                if pi != qi {
+                    for pt in points_all[pi].iter() {
+                        if seen.insert((pi, pt.clone(), qi)) {
+                            triples.push((pi, pt.clone(), qi));
+                        }
+                    }
+                }
+            }
+        }
+    }
     // requests with a check-then-act window on the node state (named by the caller): paused inside the
     // window, against every other request that takes the node state
     let mut focus_s: Vec<usize> = vec![];
@@ -1448,8 +1575,11 @@ fn sweep(rec: &Arc<Rec>, args: &Args) {
                 pts.push(format!(":{}", k));
             }
         }
+        if is_handler(&acqs[pi].0) {
+            continue; // the handler messages have their own family above
+        }
         for qi in 0..acqs.len() {
-            if qi == pi || !acqs[qi].2.iter().any(|l| l.starts_with("S#")) {
+            if qi == pi || is_handler(&acqs[qi].0) || !acqs[qi].2.iter().any(|l| l.starts_with("S#")) {
                 continue;
             }
             for pt in pts.iter() {
@@ -1468,6 +1598,9 @@ fn sweep(rec: &Arc<Rec>, args: &Args) {
         }
     }
     for &pi in focus_w.iter() {
+        if is_handler(&acqs[pi].0) {
+            continue;
+        }
         let mut locks: Vec<&String> = windows[pi].keys().collect();
         locks.sort();
         for l in locks {
@@ -1482,7 +1615,7 @@ fn sweep(rec: &Arc<Rec>, args: &Args) {
                 }
             }
             for qi in 0..acqs.len() {
-                if qi == pi || !acqs[qi].2.contains(l) {
+                if qi == pi || is_handler(&acqs[qi].0) || !acqs[qi].2.contains(l) {
                     continue;
                 }
                 for pt in pts.iter() {
@@ -1511,7 +1644,8 @@ fn sweep(rec: &Arc<Rec>, args: &Args) {
     let tier1 = triples.len();
     // tier 2: two requests that lock the same channel slot, one of them a commitment update
     let is_update = |n: &str| ["validate_holder_commitment", "revoke_holder_commitment", "sign_counterparty_commitment",
-        "validate_counterparty_revocation", "sign_holder_commitment", "sign_mutual_close", "htlcs_fulfilled"].iter().any(|p| n.starts_with(p));
+        "validate_counterparty_revocation", "sign_holder_commitment", "sign_mutual_close", "htlcs_fulfilled",
+        "h4_validate", "h6_validate", "h4_revoke", "h6_revoke", "h4_sign_remote", "h6_sign_remote"].iter().any(|p| n.starts_with(p));
     let slots = |i: usize| -> Vec<&String> { acqs[i].2.iter().filter(|l| l.starts_with("C#")).collect() };
     let mut t2: Vec<(usize, String, usize)> = vec![];
     for pi in 0..acqs.len() {
